@@ -175,6 +175,25 @@ Module DacTree.
     - intros par kind name n HK. vm_compute in HK. injection HK as <- _ _ <-. reflexivity.
   Qed.
 
+  (* alice renames her directory /h/s to /h/g (same parent: no write permission on the moved directory is needed) *)
+  Example rename_dir_alice :
+    let o := abs_path ([n_h] ++ [n_s]) in
+    let p := abs_path ([n_h] ++ [n_g]) in
+    (fst (rename dfs (view_of alice 18) o p), proj_res Linux (snd (rename dfs (view_of alice 18) o p))) = go_rename dfs (svu alice 18) o p
+    /\ snd (go_rename dfs (svu alice 18) o p) = SOk.
+  Proof.
+    split; [|vm_compute; reflexivity].
+    apply (dstep_rename_dir_new dfs (svu alice 18) [n_h] n_s [n_h] n_g (dtree_hyps alice 18)); [path_ok_tac|path_ok_tac| | | | | |].
+    - intros par kind name n HK. vm_compute in HK. injection HK as _ _ _ <-. reflexivity.
+    - intros par kind name n HK. vm_compute in HK. discriminate HK.
+    - intros par name md e HK. vm_compute in HK. discriminate HK.
+    - intros par kind name n HK. vm_compute in HK. injection HK as <- _ _ <-. reflexivity.
+    - intros opar okind oname oc npar nname md HKo HKn. vm_compute in HKo, HKn.
+      injection HKo as _ _ _ <-. injection HKn as <- _ _. vm_compute. split; reflexivity.
+    - intros opar okind oname oc npar nname md HKo HKn. vm_compute in HKo, HKn.
+      injection HKo as <- _ _ _. injection HKn as <- _ _. left. reflexivity.
+  Qed.
+
   (* ---- Remove: the side condition is necessary.  /t is sticky, /t/b is bob's: alice (who may write /t) is refused by
      the kernel with EPERM, MemFS removes the file (listed: C03-STICKY) ------------------------------------------- *)
   Example remove_sticky_differs :
